@@ -6,7 +6,7 @@ open IR
 
 let select_binop op is_signed =
   match op with
-  | Add -> if is_signed then IAddNSW else IAdd
+  | Add -> IAdd
   | Subtract -> ISub
   | Multiply -> IMul
   | Divide -> if is_signed then ISDiv else IUDiv
